@@ -132,7 +132,8 @@ deriving Repr, DecidableEq
 
 /-- `FPtoInt_SP(a, r, p_lost, denorm, invalid)` arithmetic_fp.py:222-303 (`r` 32 bits, flags 1 bit).
     `shifted` holds `|x|·2^32` on 64 bits; `final_m_pos = Range(shifted, 64, 32)` (33 bits) is the integer part,
-    `hw_range(shifted, 32, 0)` (33 bits: INCLUDES bit 32, the least significant integer bit) feeds p_lost. -/
+    `hw_range(shifted, 31, 0)` (the 32 discarded bits; since /repo commit 87c4dcb — before it the range was 32..0 and
+    included the least significant integer bit) feeds p_lost. -/
 def fptoint (a : Nat) : F2I :=
   let p := parts a
   let sign := p.s
@@ -153,7 +154,7 @@ def fptoint (a : Nat) : F2I :=
   let final_m_pos := Leaf.range 33 shifted 64 32
   let final_m_neg := neg 33 final_m_pos
   let final_m := Leaf.mux2 33 sign final_m_pos final_m_neg               -- hw_if(sign, final_m_neg, final_m_pos)
-  let pos_ext_p_lost := notEqualConstant 33 1 (Leaf.range 33 shifted 32 0) 0
+  let pos_ext_p_lost := notEqualConstant 32 1 (Leaf.range 32 shifted 31 0) 0
   -- for denorm values
   let select_denorm := is_denorm
   let p_lost_denorm := Leaf.const 1 1
@@ -199,7 +200,8 @@ def fpmul (a b : Nat) : Nat :=
   concatMSBF 32 [(1, sr), (8, pre_er4), (23, pre_mr4)]
 
 /-- the datapath of `FPAdder_SP` after the magnitude swap: `a` is the operand of larger (or equal) magnitude.
-    `ediff` is a FIVE-bit wire; the `round_*` wires of the Python drive nothing and are omitted. -/
+    `ediff` is an 8-bit wire (since /repo commit f8136d7; before it 5 bits, so gaps ≥ 32 wrapped); the `round_*` wires of
+    the Python drive nothing and are omitted. -/
 def fpaddCore (a b : Nat) : Nat :=
   let pa := parts a
   let pb := parts b
@@ -209,8 +211,8 @@ def fpaddCore (a b : Nat) : Nat :=
   let mb := pb.m
   let ea := (partsRaw a).2.1
   let eb := (partsRaw b).2.1
-  let ediff := Leaf.sub 5 ea eb
-  let mb3 := shiftRight 24 5 24 (.const false) mb ediff       -- 'preshift'
+  let ediff := Leaf.sub 8 ea eb
+  let mb3 := shiftRight 24 8 24 (.const false) mb ediff       -- 'preshift'
   let m_a_plus_b := (add 25 0 ma mb3 none).1
   let m_a_minus_b := Leaf.sub 25 ma mb3
   let sel_amb := xor2 1 1 1 sa sb
